@@ -3,24 +3,55 @@
 #ifndef TETL_CMATH_ATANH_HPP
 #define TETL_CMATH_ATANH_HPP
 
+#include <etl/_config/all.hpp>
+
 #include <etl/_3rd_party/gcem/gcem.hpp>
 #include <etl/_concepts/integral.hpp>
+#include <etl/_type_traits/is_constant_evaluated.hpp>
+#include <etl/_type_traits/is_same.hpp>
 
 namespace etl {
+
+namespace detail {
+
+template <typename T>
+[[nodiscard]] constexpr auto atanh(T arg) noexcept -> T
+{
+    if (not is_constant_evaluated()) {
+        if constexpr (is_same_v<T, float>) {
+#if __has_builtin(__builtin_atanhf)
+            return __builtin_atanhf(arg);
+#endif
+        }
+        if constexpr (is_same_v<T, double>) {
+#if __has_builtin(__builtin_atanh)
+            return __builtin_atanh(arg);
+#endif
+        }
+        if constexpr (is_same_v<T, long double>) {
+#if __has_builtin(__builtin_atanhl)
+            return __builtin_atanhl(arg);
+#endif
+        }
+    }
+    return detail::gcem::atanh(arg);
+}
+
+} // namespace detail
 
 /// \ingroup cmath
 /// @{
 
 /// Computes the inverse hyperbolic tangent of arg.
 /// \details https://en.cppreference.com/w/cpp/numeric/math/atanh
-[[nodiscard]] constexpr auto atanh(float arg) noexcept -> float { return etl::detail::gcem::atanh(arg); }
-[[nodiscard]] constexpr auto atanhf(float arg) noexcept -> float { return etl::detail::gcem::atanh(arg); }
-[[nodiscard]] constexpr auto atanh(double arg) noexcept -> double { return etl::detail::gcem::atanh(arg); }
-[[nodiscard]] constexpr auto atanh(long double arg) noexcept -> long double { return etl::detail::gcem::atanh(arg); }
-[[nodiscard]] constexpr auto atanhl(long double arg) noexcept -> long double { return etl::detail::gcem::atanh(arg); }
+[[nodiscard]] constexpr auto atanh(float arg) noexcept -> float { return etl::detail::atanh(arg); }
+[[nodiscard]] constexpr auto atanhf(float arg) noexcept -> float { return etl::detail::atanh(arg); }
+[[nodiscard]] constexpr auto atanh(double arg) noexcept -> double { return etl::detail::atanh(arg); }
+[[nodiscard]] constexpr auto atanh(long double arg) noexcept -> long double { return etl::detail::atanh(arg); }
+[[nodiscard]] constexpr auto atanhl(long double arg) noexcept -> long double { return etl::detail::atanh(arg); }
 [[nodiscard]] constexpr auto atanh(integral auto arg) noexcept -> double
 {
-    return etl::detail::gcem::atanh(double(arg));
+    return etl::detail::atanh(double(arg));
 }
 
 /// @}
